@@ -94,3 +94,100 @@ def replay_golden(case, proj, what):
     for name, doc, pk in golden_docs():
         if name == case["file"]:
             compare(case, real_compile(doc, max_id(doc) + 1), pk, proj, what)
+
+
+# ------------------------------------------------------------------ one Compiler for several documents whose ids coincide
+ROT = {"Context": "Action", "Action": "Outcome", "Outcome": "Context", "Conjunction": "Conjunction", "Unknown": "Unknown"}
+
+
+def variant(doc):
+    """a document of the same shape and the same ids but different content everywhere (tags, headers, values, texts,
+    arguments, keyword types) - what a second feature file parsed by a fresh parser looks like to a reused compiler"""
+    d = copy.deepcopy(doc)
+    f = d.get("feature")
+    if not f:
+        return d
+    f["language"] = "fr" if f["language"] != "fr" else "en"
+    d["uri"] = "other/" + d.get("uri", "")
+
+    def tags(ts):
+        for t in ts:
+            t["name"] = t["name"] + "_v"
+
+    def steps(ss, headers):
+        for s in ss:
+            s["text"] = rename(s["text"], headers) + " v"
+            s["keywordType"] = ROT[s["keywordType"]]
+            if "dataTable" in s:
+                for r in s["dataTable"]["rows"]:
+                    for c in r["cells"]:
+                        c["value"] = rename(c["value"], headers) + "v"
+            if "docString" in s:
+                s["docString"]["content"] = rename(s["docString"]["content"], headers) + "\nv"
+                if "mediaType" in s["docString"]:
+                    s["docString"]["mediaType"] = rename(s["docString"]["mediaType"], headers) + "v"
+
+    def rename(text, headers):
+        for h in headers:
+            text = text.replace("<" + h + ">", "<" + h + "2>")
+        return text
+
+    def scenario(sc):
+        headers = []
+        for ex in sc["examples"]:
+            if "tableHeader" in ex:
+                for c in ex["tableHeader"]["cells"]:
+                    if c["value"] not in headers:
+                        headers.append(c["value"])
+        sc["name"] = rename(sc["name"], headers) + " v"
+        tags(sc["tags"])
+        steps(sc["steps"], headers)
+        for ex in sc["examples"]:
+            tags(ex["tags"])
+            if "tableHeader" in ex:
+                for c in ex["tableHeader"]["cells"]:
+                    c["value"] = c["value"] + "2"
+            for r in ex["tableBody"]:
+                for c in r["cells"]:
+                    c["value"] = c["value"] + "w"
+
+    tags(f["tags"])
+    for ch in f["children"]:
+        if "background" in ch:
+            steps(ch["background"]["steps"], [])
+        elif "scenario" in ch:
+            scenario(ch["scenario"])
+        else:
+            tags(ch["rule"]["tags"])
+            for c2 in ch["rule"]["children"]:
+                if "background" in c2:
+                    steps(c2["background"]["steps"], [])
+                else:
+                    scenario(c2["scenario"])
+    return d
+
+
+def check_reuse(case, stats, proj, what):
+    """compile doc, then its same-shaped variant, with ONE compiler: the second result must equal a fresh compiler's"""
+    doc, nid = case["doc"], case["next_id"]
+    other = variant(doc)
+    ref = ref_compile(other, 0)
+    stats.case(case, len(ref) >= 1 and any(p["tags"] or p["steps"] for p in ref), sample=case, labels=["reuse"])
+    g = gh.IdGenerator()
+    c = gh.Compiler(g)
+    first = c.compile(copy.deepcopy(doc))
+    base = len([1 for p in first for _ in [p] + p["steps"]])
+    second = c.compile(copy.deepcopy(other))
+    fresh = gh.Compiler(gh.IdGenerator()).compile(copy.deepcopy(other))
+    compare(case, second, fresh, proj, what + " (second document through a reused compiler vs a fresh compiler)")
+    compare(case, fresh, ref, proj, what + " (variant document)")
+    # and once more the first document: nothing of the second may stick either
+    third = c.compile(copy.deepcopy(doc))
+    compare(case, third, first, proj, what + " (first document compiled again by the same compiler)")
+
+
+def unit_reuse(a, strat, proj, what, salt):
+    from vlib.common import hyp, shard_seed
+    stats = Stats()
+    hyp(stats, strat.map(lambda c: dict(c, sub="reuse")), lambda c, s: check_reuse(c, s, proj, what), a["n"], shard_seed(a["seed"], a["shard"], salt))
+    return stats
